@@ -188,6 +188,15 @@ fn session<C: Suite>(ctx: &mut Ctx, n: u16, t: u16, kind: &str, source: &str, cl
     }
     let Ok(sig) = C::api_aggregate(&pkg, &shares, &grp.pkp) else { return ctx.viol("honest-aggregate-failed", "", json!({})) };
     let sigb = Signature::<C>::serialize(&sig).unwrap();
+    // the final signature is a function of the shares alone: every cheater-detection strategy returns the same bytes
+    for (mode, mname) in [(frost_core::CheaterDetection::Disabled, "disabled"), (frost_core::CheaterDetection::FirstCheater, "first"), (frost_core::CheaterDetection::AllCheaters, "all")] {
+        match frost_core::aggregate_custom(&pkg, &shares, &grp.pkp, mode) {
+            Ok(s2) if Signature::<C>::serialize(&s2).ok().as_deref() == Some(&sigb[..]) => {}
+            Ok(s2) => ctx.viol("bit-exact", &format!("final-signature-depends-on-detection-mode/{mname}"), json!({"aggregate": hex::encode(&sigb), "aggregate_custom": Signature::<C>::serialize(&s2).map(hex::encode).unwrap_or_default()})),
+            Err(e) => ctx.viol("bit-exact", &format!("final-signature-depends-on-detection-mode/{mname}"), json!({"aggregate": hex::encode(&sigb), "aggregate_custom_err": format!("{e:?}")})),
+        }
+        ctx.count("aggregate_mode_comparisons");
+    }
     ctx.event(json!({"k": "session", "item": ctx.cur_item, "n": n, "t": t, "ids": kind, "keys": source,
         "vk": el_hex::<C>(&vk.to_element()), "msg": hex::encode(msg),
         "commitment_list": hex::encode(&enc_list),
